@@ -72,7 +72,7 @@ def canon_text(ctx, qual, text):
     return prefix + out
 
 
-def canon_key(ctx, qual, text):
+def canon_key(ctx, qual, text, lineno=0):
     """canon_text plus, when several statements of the function have the same canonical text (the ISO9660 / Joliet /
     UDF variants of one step differ only in the variable they act on), the ordinal of this one among them in source
     order: `v0 += self._add_child_to_dr(v1)#1`."""
@@ -92,13 +92,16 @@ def canon_key(ctx, qual, text):
                 lst.append((n.lineno, n.col_offset, raw, canon_text(ctx, qual, raw)))
         lst.sort()
         cache[qual] = lst
-    same = [raw for (_l, _c, raw, c) in cache[qual] if c == ct]
-    distinct = []
-    for r in same:
-        if r not in distinct:
-            distinct.append(r)
-    if len(distinct) > 1 and text in distinct:
-        return '%s#%d' % (ct, distinct.index(text))
+    same = [(l, raw) for (l, _c, raw, c) in cache[qual] if c == ct]
+    if len(same) > 1:
+        # ordinal by position among the statements with this canonical text; the statement meant is the one at
+        # `lineno` (or, when the line is unknown, the first one with exactly this text)
+        for i, (l, raw) in enumerate(same):
+            if lineno and l == lineno:
+                return '%s#%d' % (ct, i) if i else ct
+        for i, (l, raw) in enumerate(same):
+            if raw == text:
+                return '%s#%d' % (ct, i) if i else ct
     return ct
 
 
@@ -141,8 +144,8 @@ def vbmrule(ctx):
         for key, roots, origin in events:
             if not roots:
                 continue
-            org = origin or (fi.qual, '?', '?')
-            k = (org[0], canon_key(ctx, org[0], org[2]))
+            org = origin or (fi.qual, '?', '?', 0)
+            k = (org[0], canon_key(ctx, org[0], org[2], org[3] if len(org) > 3 else 0))
             d = findings.setdefault(k, {'methods': set(), 'first': set(), 'raises': set()})
             d['methods'].add(fi.name)
             d['first'].add(org[1])
